@@ -2,7 +2,7 @@
    model Model/Escape.v (CPython string-literal / comment lexer + one function per site + the escapers).
    Only statements, [exact], and Print Assumptions live here.
    After the fix wave every text site of the inventory Gen/T_C15.v has a FULL theorem for all strings of the stated
-   domain; the enum-typed default (F15l) is still refuted and proved only under its guard. *)
+   domain (F15a-l all repaired). *)
 From PG Require Import Lib.Strs Model.Escape Proofs.Escape Gen.T_C15.
 
 (* ---- the lexer: a run of ordinary characters is read back verbatim; json.dumps escaping is read back verbatim *)
@@ -79,8 +79,7 @@ Proof. repeat split. Qed.
 Print Assumptions C15_fixed_witnesses.
 Theorem C15_guard_nonvacuous :
   scalar (ex_text ++ [34; 92; 10; 13; 0; 127; 133; 8232; 128512]) = true /\
-  in_range (ex_text ++ [34; 39; 92; 10; 0; 55296; 128512]) = true /\
-  safe_enum_default [108;111;119;45;112;114;105;111;32;50] = true.
+  in_range (ex_text ++ [34; 39; 92; 10; 0; 55296; 128512]) = true.
 Proof. exact guards_nonvacuous. Qed.
 Print Assumptions C15_guard_nonvacuous.
 
@@ -155,18 +154,17 @@ Theorem C15_fixed_doc_witnesses :
 Proof. exact (conj fixed_F15c (conj fixed_F15d (conj fixed_F15g fixed_F15k))). Qed.
 Print Assumptions C15_fixed_doc_witnesses.
 
-(* ---- enum-typed default: the text is used UNQUOTED as an attribute name; it is an identifier for text made of
-   ASCII letters, digits, underscore, dash, space that does not start with a digit *)
-Theorem C15_site_enum_default_partial : forall t, safe_enum_default t = true -> is_ident (site_enum_default t) = true.
-Proof. exact enum_default_ident. Qed.
-Print Assumptions C15_site_enum_default_partial.
-Theorem C15_refuted_F15l : safe_enum_default w_quote = false /\ is_ident (site_enum_default w_quote) = false.
-Proof. exact enum_default_refuted. Qed.
-Print Assumptions C15_refuted_F15l.
+(* ---- enum-typed default after the fix of F15l: Name(<literal>) - the literal evaluates to exactly the text *)
+Theorem C15_site_enum_default : forall t rest, scalar t = true -> hd_not_quote rest ->
+  lex_str (site_enum_default t ++ rest) = Some (t, rest).
+Proof. exact json_raw_inert. Qed.
+Print Assumptions C15_site_enum_default.
+Theorem C15_fixed_F15l : lex_str (site_enum_default w_quote ++ [41]) = Some (w_quote, [41]).
+Proof. exact fixed_F15l. Qed.
+Print Assumptions C15_fixed_F15l.
 
 (* ---- comment site *)
 
-(* ---- still refuted: the enum-typed default (witness replays on the real generator) *)
 
 (* ---- guards are met by non-trivial text (non-ASCII, braces, %; quotes/backslashes/controls where the site escapes) *)
 
